@@ -37,6 +37,12 @@ CHECKS = {
    note="Trusted: the vf plugin's ledger; delayed destruction (temporary pool, function context cache) is legal until the owning contexts are released, so 'no later' is only asserted after release; reachability is computed by the deep dump of every live context.",
    technique="deterministic simulation: fault-point / cancel / lifecycle injection over generated object-handling programs, plugin event-log oracle (exactly-once, no use after destroy), ASan monitor",
    design="DESIGN.md section 4 (C17)"),
+ "C15": dict(
+   level="exploration",
+   text="A host actor drives only blocc/bloc_capi.h with seeded sequences of up to 40 calls drawn from a handle state machine (contexts, clones, symbols, caller-owned values of every scalar type including typed nulls, expressions, executables). Texts come from a catalogue with known effects (programs that run, return values, raise handled and unhandled errors, 23 texts that fail to parse in different classes with and without the position out-parameter) plus generated programs damaged at a token (rejected or accepted, never run); the simulator injects bloc_break at statement #k, purge, free and re-use after every kind of error, and bloc_execute2 in clones. A model predicts every return value and out-parameter (typed accessors succeed exactly on the matching type and give NULL data for nulls; failures return NULL/false with the error record set; values stored through the API are read back by scripts and vice versa); library-owned pointers are re-read just before the call that ends their validity (AddressSanitizer watches); after the host frees everything it owns the in-process LeakSanitizer must report nothing.",
+   note="Trusted: the catalogue's predicted effects (each entry is independent of interleaving and was validated fault-free against the implementation); symbol names are upper case; expression texts end with a newline as in the repository's own API test; a value passed to bloc_ctx_store_variable is only freed or re-assigned afterwards; 'no memory remains' is LeakSanitizer's reachability verdict; bloc_errno may be 0 for the EOF error class (the library's own code for it) as long as bloc_strerror is set.",
+   technique="deterministic simulation: seeded API-call histories from a handle state machine with injected parse/runtime errors, cancel and purge; reference-model oracle, ASan use-after-free monitor, in-process LSan after release",
+   design="DESIGN.md section 4 (C15)"),
 }
 
 NOT_APPLICABLE = {
